@@ -183,7 +183,7 @@ class TSeq(Type):
         return 'seq[' + self.elem.key() + ']'
 
     def sort(self):
-        return z3.SeqSort(self.elem.sort())
+        return z3.SeqSort(elem_sort(self.elem))
 
 
 class TMap(Type):
@@ -199,7 +199,7 @@ class TMap(Type):
         if k not in _dt_cache:
             d = z3.Datatype(k)
             d.declare('mk_' + k,
-                      ('keys_' + k, z3.SeqSort(self.k.sort())),
+                      ('keys_' + k, z3.SeqSort(elem_sort(self.k))),
                       ('vals_' + k, z3.ArraySort(self.k.sort(), self.v.sort())))
             _dt_cache[k] = d.create()
         return _dt_cache[k]
@@ -265,6 +265,49 @@ class TUnion(Type):
     def get(self, tag, term):
         s = self.sort()
         return getattr(s, 'get_%s_%s' % (tag, s.name()))(term)
+
+
+# ---------------------------------------------------------------------------
+# Sequence elements whose own sort is a sequence (str, nested lists) are boxed
+# in a one-field datatype: z3 mis-rewrites nested sequences (observed: `unsat`
+# for a satisfiable query with Seq(String) keys), and cvc5 is slower on them.
+# ---------------------------------------------------------------------------
+def _needs_wrap(ty):
+    return ty == TStr or isinstance(ty, TSeq)
+
+
+def elem_sort(ty):
+    if not _needs_wrap(ty):
+        return ty.sort()
+    k = 'Box_' + _mangle(ty.key())
+    if k not in _dt_cache:
+        d = z3.Datatype(k)
+        d.declare('box_' + k, ('unbox_' + k, ty.sort()))
+        _dt_cache[k] = d.create()
+    return _dt_cache[k]
+
+
+def wrap(ty, term):
+    if not _needs_wrap(ty):
+        return term
+    s = elem_sort(ty)
+    return getattr(s, 'box_' + s.name())(term)
+
+
+def unwrap(ty, term):
+    if not _needs_wrap(ty):
+        return term
+    s = elem_sort(ty)
+    return getattr(s, 'unbox_' + s.name())(term)
+
+
+def sunit(ty, term):
+    """Singleton sequence holding an element term of type ty."""
+    return z3.Unit(wrap(ty, term))
+
+
+def snth(ty, seq, i):
+    return unwrap(ty, seq[i])
 
 
 # ---------------------------------------------------------------------------
